@@ -77,3 +77,32 @@ Print Assumptions C01_accept_implies_all_keys_signed.
 Print Assumptions C01_reject_before_any_effect.
 Print Assumptions C01_entry_points_agree.
 Print Assumptions C01_reject_before_any_effect_with_directory.
+
+(* ---- with the model of VerifySignature (model/Sign.v, property C04) plugged in ----
+   acceptance needs, for EVERY supplied key, a stored signature - selected as the wrapper prescribes (legacy:
+   the first one carrying the key's id; DSSE: one whose key id is empty or the key's) - that decodes to a raw
+   signature which the primitive accepts under that key's public half over EXACTLY the signed bytes of the
+   layout metadata: canon(to_json payload) for the legacy wrapper, PAE(payload type, stored payload bytes) for
+   DSSE (C04_signed_bytes_standard); by C11 different content has different signed bytes. *)
+From IT Require Import model.Sign proofs.SignProofs.
+
+Theorem C01_accept_implies_signed_content :
+  forall (World : Type) (vrfy_prim : key -> str -> str -> bool) (key_usable : key -> bool)
+         (signable : payload -> res str) (fallback_keyid : key -> str)
+         expiry_ok subst certs_ok load_all verify_thresholds verify_rules run_insp retval_zero pbytes zero_key
+         fuel w path d layout_env keys step_name params inter s w' tr,
+    verify World (vsig vrfy_prim key_usable signable fallback_keyid) expiry_ok subst certs_ok load_all verify_thresholds
+           verify_rules run_insp retval_zero pbytes zero_key (S fuel) w path d layout_env keys step_name params inter = (Ok s, w', tr) ->
+    keys <> [] /\
+    forall id k, In (id, k) keys ->
+      key_usable k = true /\
+      exists m sg raw,
+        signed_bytes signable layout_env = Ok m /\ In sg (e_sigs layout_env) /\ selected fallback_keyid layout_env k sg /\
+        sig_decode (e_wrapper layout_env) (sg_sig sg) = Some raw /\ vrfy_prim (pub k) m raw = true.
+Proof.
+  intros World vrfy_prim key_usable signable fallback_keyid expiry_ok subst certs_ok load_all verify_thresholds
+         verify_rules run_insp retval_zero pbytes zero_key fuel w path d layout_env keys step_name params inter s w' tr H.
+  apply C01_accept_implies_all_keys_signed in H as [Hne [Hall _]]. split; [exact Hne|].
+  intros id k Hin. apply verify_reduces_to_primitive. apply (Hall id k Hin).
+Qed.
+Print Assumptions C01_accept_implies_signed_content.
